@@ -1095,7 +1095,26 @@ class Interp:
         return out
 
     def e_JoinedStr(self, node, env):
-        return "<fstring>"
+        # f-strings are evaluated when every piece is a plain str/int value without a format spec (cache keys, form names);
+        # anything else (messages with data) stays an opaque text
+        parts = []
+        for v in node.values:
+            if isinstance(v, ast.Constant) and isinstance(v.value, str):
+                parts.append(v.value)
+            elif isinstance(v, ast.FormattedValue) and v.format_spec is None and v.conversion == -1:
+                try:
+                    val = self.eval(v.value, env)
+                except (OutsideFragment, KpeRaise, RuntimeNameError):
+                    return "<fstring>"
+                if isinstance(val, str):
+                    parts.append(val)
+                elif isinstance(val, int) and not isinstance(val, bool):
+                    parts.append(str(val))
+                else:
+                    return "<fstring>"
+            else:
+                return "<fstring>"
+        return "".join(parts)
 
     def e_Lambda(self, node, env):
         return FuncRef(env.mod, node, closure=env, qual="<lambda>")
